@@ -144,6 +144,12 @@ func c09Concurrent(run *vlib.Run, pols map[string]vlib.PolicySpec, probeNrs []ui
 			cc.Plans = append(cc.Plans, plan)
 			cc.Jitter = append(cc.Jitter, []int{0, 0, 100, 2000, 20000}[r.Intn(5)])
 		}
+		if i%3 == 1 {
+			// few Ps and a pause inside every load, between prctl and the seccomp call: other loads run in that window
+			cc.GoMaxProcs = []int{1, 2, 1, 4}[(i/3)%4]
+			cc.HookSleepMicros = []int{50, 300, 2000}[(i/12)%3]
+			run.Count("concurrent_histories_with_a_pause_inside_every_load", 1)
+		}
 		res, err := vlib.RunChild(bin, "conc", &vlib.ChildCase{Conc: cc}, false, 60*time.Second)
 		if err != nil || res.TimedOut || res.Line("done") == nil {
 			run.SoftInconclusive(fmt.Sprintf("concurrent-load child did not finish: %v %s", err, tail(res.Stderr, 200)))
